@@ -1,6 +1,7 @@
 import Genshi.Wire
 import Genshi.Model.Match
 import Genshi.Model.MatchPath
+import Genshi.Model.MatchLazy
 namespace Driver.C12
 open Genshi Genshi.Match Genshi.Sexp
 
@@ -10,6 +11,7 @@ open Genshi Genshi.Match Genshi.Sexp
            | ( REG spec ( bitem … ) buffer once recursive )     the three attribute values, N = absent
      spec := ( one name|N pos|N ) | ( chain ( ( name … ) … ) )
      bitem := ( S name ) | ( E name ) | ( T text ) | ( SEL dot|node|elems|text|nodeText ) | ( SEL named name )
+  C12 lazy <fuel> ( item … )     the same through the automaton model (covers buffer="false")
   answer: ( ok ( event … ) ( hits per registered template … ) ) | unmodelled | ( err fuel )
 -/
 
@@ -77,6 +79,13 @@ def handle : List Sexp → Option Sexp
       if !allBuffered items then pure (.atom "unmodelled") else
       match run fuel 0 none items [] with
       | some (mts, out) => pure (.list [.atom "ok", .list (out.map evOut), .list (mts.map fun t => ofNat t.hits)])
+      | none => pure (.list [.atom "err", .atom "fuel"])
+  | [.atom "lazy", fuel, .list items] => do
+      -- the automaton model: every hint, buffered or not
+      let fuel ← fuel.toNat?
+      let items ← items.mapM item?
+      match runL fuel .idle items [] with
+      | some (_, mts, out) => pure (.list [.atom "ok", .list (out.map evOut), .list (mts.map fun t => ofNat t.hits)])
       | none => pure (.list [.atom "err", .atom "fuel"])
   | _ => none
 
